@@ -69,7 +69,8 @@ class UniverseDB:
         return sorted(t for t in self.pages if start <= t <= end)
 
 
-# CPU budget of the oracle: C0 + C*n^2 seconds, n = max(len(raw), len(expanded text)).  Calibrated on the
+# CPU budget of the oracle: C0 + C*n^2 seconds, n = max(len(raw), len(expanded text), total length of the wiki database's
+# page names and texts: the template pages are part of the input).  Calibrated on the
 # unchanged tree (60 000 inputs up to 5 000 chars: max 0.6 s, i.e. > 5x headroom everywhere).
 BUDGET_C0 = 3.0
 BUDGET_C = 2e-6
@@ -91,6 +92,7 @@ _seen_len = [0]
 _seen_nest = [0]
 _t0 = [0.0]
 _nraw = [0]
+_ndb = [0]
 _scale = [1.0]
 
 
@@ -121,7 +123,7 @@ def _where(frame):
 
 def _alarm(_sig, frame):
     used = time.process_time() - _t0[0]
-    b = budget(max(_nraw[0], _seen_len[0])) * _scale[0]
+    b = budget(max(_nraw[0], _seen_len[0], _ndb[0])) * _scale[0]
     if used < b:
         signal.setitimer(signal.ITIMER_VIRTUAL, max(b - used, 0.01))
         return
@@ -175,10 +177,12 @@ def run_one(raw, lang, db, scale=1.0):
     _seen_len[0] = -1
     _seen_nest[0] = 0
     _nraw[0] = len(raw)
+    # the wiki database is part of the input: its text counts for the length the budget is a polynomial of
+    _ndb[0] = sum(len(k) + len(v) for k, v in db.items()) if db else 0
     _scale[0] = scale
     _t0[0] = t0 = time.process_time()
     res = {"ok": True, "exc": None, "frame": None, "msg": None}
-    signal.setitimer(signal.ITIMER_VIRTUAL, budget(len(raw)) * scale)
+    signal.setitimer(signal.ITIMER_VIRTUAL, budget(max(len(raw), _ndb[0])) * scale)
     try:
         try:
             art = uparser.parse_string(title="t", raw=raw, wikidb=wikidb, lang=lang)
@@ -187,14 +191,14 @@ def run_one(raw, lang, db, scale=1.0):
         finally:
             signal.setitimer(signal.ITIMER_VIRTUAL, 0)
     except OverBudget as e:
-        n = max(len(raw), _seen_len[0])
+        n = max(len(raw), _seen_len[0], _ndb[0])
         res.update(ok=False, exc="OverBudget", frame=e.where, msg="cpu > %.1f s = %.1f + %.0e*n^2, n=%d" % (budget(n) * scale, BUDGET_C0, BUDGET_C, n))
     except BaseException as e:  # noqa: B902  (SystemExit/KeyboardInterrupt from the parser are failures too)
         signal.setitimer(signal.ITIMER_VIRTUAL, 0)
         res.update(ok=False, exc=type(e).__name__, frame=innermost_mwlib_frame(e.__traceback__, isinstance(e, RecursionError)), msg=str(e)[:200])
     res["cpu"] = round(time.process_time() - t0, 5)
     res["n"] = len(raw)
-    res["nexp"] = max(_seen_len[0], 0)
+    res["nexp"] = max(_seen_len[0], _ndb[0], 0)
     res["nest"] = max(_seen_nest[0], c01_gen.nesting(raw))
     return res
 
